@@ -320,13 +320,21 @@ class ArgumentAnalyzer:
 
         assert strict_positional + positional == p_to_n
 
+        def argname(pos):
+            # A positional-only parameter of the entry point: a name of its
+            # own, clear of the names the methods use
+            name = f"ARG{pos + 1}"
+            while name in self.name_to_positions:
+                name += "_"
+            return name
+
         self.strict_positional_required = [
-            f"ARG{pos + 1}"
+            argname(pos)
             for pos, _ in enumerate(strict_positional)
             if self.counts[pos][0] == self.total
         ]
         self.strict_positional_optional = [
-            f"ARG{pos + 1}"
+            argname(pos)
             for pos, _ in enumerate(strict_positional)
             if self.counts[pos][0] != self.total
         ]
